@@ -107,7 +107,7 @@ func cmdRun(args []string) int {
 		names = strings.Split(*rs, ",")
 	}
 	if *verbose {
-		fmt.Printf("LOAD packages=%d files=%d functions=%d; normalised at load: tagless switches=%d table loops=%d branch clamps=%d min/max tests split=%d\n", len(p.Pkgs), p.Files, p.Funcs, p.Desugared, p.Unrolled, p.Clamps, p.SplitCmps)
+		fmt.Printf("LOAD packages=%d files=%d functions=%d; normalised at load: tagless switches=%d table loops=%d branch clamps=%d min/max tests split=%d flags turned=%d\n", len(p.Pkgs), p.Files, p.Funcs, p.Desugared, p.Unrolled, p.Clamps, p.SplitCmps, p.Flags)
 	}
 	rc := 0
 	for _, n := range names {
@@ -345,7 +345,7 @@ func cmdCheck(args []string) int {
 		"package_list":       pkgNames,
 		"files_analysed":     p.Files,
 		"functions_parsed":   p.Funcs,
-		"normalised_at_load": map[string]int{"tagless_switches_as_if_chains": p.Desugared, "table_loops_unrolled": p.Unrolled, "branch_clamps_as_min_max": p.Clamps, "min_max_tests_split": p.SplitCmps},
+		"normalised_at_load": map[string]int{"tagless_switches_as_if_chains": p.Desugared, "table_loops_unrolled": p.Unrolled, "branch_clamps_as_min_max": p.Clamps, "min_max_tests_split": p.SplitCmps, "disjunctive_flags_negated": p.Flags},
 		"checker_cmd":        fmt.Sprintf("/verif/check %s %s", *pid, *tier),
 		"trusted_base": []string{"Go parser and type checker (go/types)", "golang.org/x/tools v0.29.0 (go/packages, go/cfg, go/ssa, callgraph/vta)",
 			"gopkg.in/yaml.v3", "ztyp codec/view/tree semantics", "bls12-381-util", "frozen tables transcribed from consensus-specs v1.5.0-beta.2 inside the checker"},
